@@ -31,6 +31,7 @@
  *   AR <srv|-1> <hname|*> <qtype> <delay_us> <rcode|-1=drop> <ancount> <hanswer> <max_uses|0>   answer rule
  *   DUMP                            NSCOUNT / NSADDR / CFG / HE lines (see dump())
  *   G <rid> <hnode|NULL> <hserv|NULL> <N | H fam socktype proto flags>   evdns_getaddrinfo      -> GCB.., RET
+ *   MF <n>                          (exploration only, with --n2 1 = lock monitor on) fail the n-th allocation inside the next G -> MFAIL failed locks_held
  *   X <rid>                         evdns_getaddrinfo_cancel (skipped when already reported)
  *   S                               step the loop to the idle point                              -> IDLE t
  *   T <us>                          advance virtual time by us (running timers)
@@ -153,7 +154,7 @@ static struct ureq g_req[MAXREQ];
 static struct event_base *g_evb;
 static struct evdns_base *g_dns;
 static int64_t g_t0;
-static long g_ncb, g_case, g_mf_base;
+static long g_ncb, g_case, g_mf_base, g_mf_next;
 static int64_t now_rel(void) { return vclk_mono_us - g_t0; }
 
 /* ------------------------------------------------------------------ fake servers */
@@ -528,12 +529,19 @@ static void run_cmd(char *line)
 			hp = &hints;
 		}
 		u->issued = 1;
+		if (g_mf_next > 0) mf_arm(g_mf_next);
 		h = evdns_getaddrinfo(g_dns, node, serv, hp, gai_cb, (void *)(intptr_t)rid);
+		if (g_mf_next > 0) {
+			printf("MFAIL %ld %d\n", mf_failed, vh_opt.n2 ? lm_held_now() : -1);
+			mf_arm(0); g_mf_next = 0;
+		}
 		if (!u->done) u->handle = h;
 		if (!h && !u->done) { vh_stat("gai_null_without_callback"); u->done = 1; }
 		printf("RET %d %lld %d\n", rid, (long long)now_rel(), h != NULL);
 		vh_stat(h ? "gai_started" : "gai_immediate");
 		free(node); free(serv);
+	} else if (!strcmp(c, "MF") && n >= 2) {
+		g_mf_next = atol(tok[1]);
 	} else if (!strcmp(c, "X") && n >= 2) {
 		int rid = atoi(tok[1]);
 		struct ureq *u = &g_req[rid];
@@ -627,7 +635,7 @@ static void run_cmd(char *line)
 }
 
 /* CPU-time watchdog: a case costs milliseconds; 40 s of CPU inside one case is a livelock in the code under test */
-void __sanitizer_print_stack_trace(void);
+void __sanitizer_print_stack_trace(void) __attribute__((weak));
 static void cpu_watchdog(int sig)
 {
 	char buf[160];
@@ -636,7 +644,7 @@ static void cpu_watchdog(int sig)
 	if (n > 0) { ssize_t w = __real_write(1, buf, (size_t)n); (void)w; }
 	n = snprintf(buf, sizeof(buf), "\nATCASE %ld cpu-watchdog\n", vh_cur_case);
 	if (n > 0) { ssize_t w = __real_write(2, buf, (size_t)n); (void)w; }
-	__sanitizer_print_stack_trace();
+	if (__sanitizer_print_stack_trace) __sanitizer_print_stack_trace();
 	_exit(3);
 }
 static void arm_watchdog(void)
@@ -679,6 +687,7 @@ int main(int argc, char **argv)
 	vh_init(argc, argv);
 	if (!vh_opt.arg) die("need --arg <script>");
 	mf_install();
+	if (vh_opt.n2) lm_install();
 	event_set_log_callback(log_cb);
 	vclk_enable(1000000000LL);
 	signal(SIGPROF, cpu_watchdog);
